@@ -32,6 +32,7 @@ ASSUMPTIONS = [
     "a doctest whose body is only comments counts as skipped",
 ]
 NSHARDS = {'quick': 16, 'thorough': 16}
+RULE += (' Plus: a left-out block (Ignore: / DisableDoctest:) of several parts in one module out of four, force-disabling comments in other cases, a remark + empty prompt line + everything skipped; probe zero-arg (six CLI runs on a module with zero-argument functions).')
 
 
 def required_cells(tier):
